@@ -275,6 +275,7 @@ int main(int argc, char **argv) {
     unlink(getenv("VERIF_FLASH_IMG"));
     unsetenv("VERIF_FLASH_IMG");
     verif_rebooted = 1;
+    if (getenv("VERIF_RST_REASON")) { sdk_rst_info.reason = atoi(getenv("VERIF_RST_REASON")); unsetenv("VERIF_RST_REASON"); }
   }
   sdk_log_echo = 1;
   sdk_restart_armed = 1;
@@ -305,6 +306,7 @@ int main(int argc, char **argv) {
           close(ofd);
           unlink(opath);
           setenv("VERIF_FLASH_IMG", fpath, 1);
+          if (ops_ntok >= 2) setenv("VERIF_RST_REASON", ops_tok[1], 1);   /* `reboot 4`: a software restart, not a power cycle */
           sdk_out("REBOOT");
           ops_done();
           execv("/proc/self/exe", argv);
